@@ -142,10 +142,10 @@ def main(rep, tier, only):
                 n, op, args = tr[0]
                 if op != ("bin", byop[short]):
                     why = "the word-wise lambda applies %s, the operator's name says %s" % (op, byop[short])
-                elif args != ["_left.array().begin()", "_left.array().end()", "_right.array().begin()", "_left.array().begin()"]:
+                elif args != ["r_a0.array().begin()", "r_a0.array().end()", "r_a1.array().begin()", "r_a0.array().begin()"]:
                     why = "the transform does not range over [left.begin, left.end) x right.begin -> left.begin: %s" % args
             rets = [r for r in F.walk(fn.get("body"), into_lambdas=False) if r.get("k") == "return"]
-            if not why and (len(rets) != 1 or T.show(T.norm(u, rets[0]["e"])) != "_left"):
+            if not why and (len(rets) != 1 or T.show(T.norm(u, rets[0]["e"])) != "r_a0"):
                 why = "does not return the left operand"
             (rep.fail if why else rep.ok)("MIRROR", key, F.primary_site(fn), F.describe(fn)[:160], **({"why": why} if why else {"how": "word-wise " + byop[short]}))
             (rep.ok)("PAD", key, F.primary_site(fn), F.describe(fn)[:160], how="Z-preserving word operator") if not why else None
@@ -165,7 +165,7 @@ def main(rep, tier, only):
             used = N % B
             if len(tr) != 1 or tr[0][1] != ("un", "~"):
                 why = "complement is not a word-wise ~ over the array"
-            elif tr[0][2] != ["_field.array().begin()", "_field.array().end()", "_field.array().begin()"]:
+            elif tr[0][2] != ["r_a0.array().begin()", "r_a0.array().end()", "r_a0.array().begin()"]:
                 why = "the transform does not range over the whole array in place"
             if not why and used != 0:
                 # a following write to the LAST word with value (last & mask), mask == 2^used - 1
@@ -185,7 +185,7 @@ def main(rep, tier, only):
                                         pass
                         tgt = T.show(T.norm(u, n.get("l")))
                         if seen_mask is not None:
-                            # the target must be the last element of _field.array()
+                            # the target must be the last element of r_a0.array()
                             defs = {}
                             for v in F.walk(fn.get("body")):
                                 if v.get("k") == "var" and v.get("init") is not None:
@@ -194,7 +194,7 @@ def main(rep, tier, only):
                             t2 = T.show(T.norm(u, init)) if init is not None else tgt
                             idxc = [x.get("c") for x in F.walk(init if init is not None else n.get("l")) if x.get("c") is not None]
                             words = (N + B - 1) // B
-                            if "_field.array()" in t2 and str(words - 1) in idxc:
+                            if "r_a0.array()" in t2 and str(words - 1) in idxc:
                                 ok = True
                 if not ok:
                     why = ("~ turns the %d unused bits of the last word on and they are not masked off with %d afterwards: "
@@ -220,7 +220,7 @@ def main(rep, tier, only):
                 continue
             seen.add(key)
             st = [T.show(T.norm(u, n)) for (n, d, q) in L.calls_in(u, fn.get("body")) if q.endswith("::set")]
-            ok = st == ["_left.set(_index, 1)"] or (len(st) == 1 and st[0].startswith("_left.set(_index, "))
+            ok = st == ["r_a0.set(r_a1, 1)"] or (len(st) == 1 and st[0].startswith("r_a0.set(r_a1, "))
             (rep.ok if ok else rep.fail)("MIRROR", key, F.primary_site(fn), F.describe(fn)[:160], **({"how": "set(index,true)"} if ok else {"why": "field |= enumerator is %s" % st}))
         if short in ("operator==", "operator!="):
             key = "%s<%s>" % (short, inst)
@@ -230,7 +230,7 @@ def main(rep, tier, only):
             rets = [r for r in F.walk(fn.get("body"), into_lambdas=False) if r.get("k") == "return"]
             t = T.show(T.norm(u, rets[0]["e"])) if rets else ""
             if short == "operator==":
-                ok = "_left.array()" in t and "_right.array()" in t and "==" in t
+                ok = "r_a0.array()" in t and "r_a1.array()" in t and "==" in t
                 why = "== does not compare the two arrays (%s)" % t
             else:
                 ok = t.startswith("!") and "==" in t
@@ -245,7 +245,7 @@ def main(rep, tier, only):
         rets = [r for r in F.walk(fn.get("body"), into_lambdas=False) if r.get("k") == "return"]
         t = T.show(T.norm(u, rets[0]["e"])) if rets else ""
         t = re.sub(r"fcppt::container::bitfield::object\{([^}]*)\}", r"\1", t)   # by-value copy of an operand
-        ok = re.sub(r"\s", "", t) in ("operator==(operator&(_left,_right),_left)", "(operator&(_left,_right)==_left)") or ("operator&(_left, _right)" in t and t.endswith("_left)") and "==" in t)
+        ok = re.sub(r"\s", "", t) in ("operator==(operator&(r_a0,r_a1),r_a0)", "(operator&(r_a0,r_a1)==r_a0)") or ("operator&(r_a0, r_a1)" in t and t.endswith("r_a0)") and "==" in t)
         (rep.ok if ok else rep.fail)("MIRROR", key, F.primary_site(fn), F.describe(fn)[:160], **({"how": "(l & r) == l"} if ok else {"why": "is_subset_eq is %s, specification (l & r) == l" % t}))
     for fn in db.functions:
         if F.fn_name(fn) == BF + "hash::operator()":
@@ -256,7 +256,7 @@ def main(rep, tier, only):
             seen.add(key)
             rets = [r for r in F.walk(fn.get("body"), into_lambdas=False) if r.get("k") == "return"]
             t = T.show(T.norm(u, rets[0]["e"])) if rets else ""
-            ok = "_bitfield.array()" in t
+            ok = "r_a0.array()" in t
             (rep.ok if ok else rep.fail)("MIRROR", key, F.primary_site(fn), F.describe(fn)[:160], **({"how": "hashes array()"} if ok else {"why": "hash does not fold the array that == compares (%s)" % t}))
     # ---------------- null_array / construction
     for fn in db.fns(BF + "detail::null_array"):
@@ -298,33 +298,40 @@ def main(rep, tier, only):
             want = "/" if nm == "array_offset" else "%"
             rterm = T.show(T.norm(u, e["r"])) if op else ""
             lterm = T.show(T.norm(u, e["l"])) if op else ""
-            ok = op == want and lterm == "_pos" and "element_bits" in rterm or (op == want and lterm == "_pos")
+            ok = op == want and lterm == "r_a0" and "element_bits" in rterm or (op == want and lterm == "r_a0")
             (rep.ok if ok else rep.fail)("ADDR", key, F.primary_site(fn), F.describe(fn)[:160],
-                                         **({"how": "_pos %s element_bits" % want} if ok else {"why": "%s is `%s %s %s`, specification _pos %s element_bits" % (nm, lterm, op, rterm, want)}))
+                                         **({"how": "pos %s element_bits" % want} if ok else {"why": "%s is `%s %s %s`, specification pos %s element_bits" % (nm, lterm, op, rterm, want)}))
             # same divisor constant in both
             continue
         if nm == "operator=" and fn.get("params") and "bool" in (u.ty(fn["params"][0]["t"]) or ""):
             pseen.add(key)
             body = fn.get("body")
-            vars_ = {v.get("name"): T.show(T.norm(u, v.get("init"))) for v in F.walk(body) if v.get("k") == "var" and v.get("init") is not None}
+            # locals are substituted by their initialisers: the rule sees the addresses actually used, however they are named or inlined
+            defs = {}
+            for v in F.walk(body, into_lambdas=False):
+                if v.get("k") == "var" and v.get("init") is not None and "id" in v:
+                    defs[v["id"]] = T.norm(u, v["init"], defs)
+
+            def shown(x):
+                return T.show(T.norm(u, x, defs)).replace("this.", "").replace("this->", "")
             why = None
-            if "array_offset(pos_)" not in vars_.get("index", "") and "array_offset(this.pos_)" not in vars_.get("index", "").replace("this->", ""):
-                why = "the word index is not array_offset(pos_): %s" % vars_.get("index")
-            if "bit_offset" not in vars_.get("bit", ""):
-                why = "the bit number is not bit_offset(pos_): %s" % vars_.get("bit")
-            if "bit_mask(bit)" not in vars_.get("mask", ""):
-                why = "the mask is not bit_mask(bit_offset(pos_)): %s" % vars_.get("mask")
             ifs = [n for n in F.walk(body, into_lambdas=False) if n.get("k") == "if"]
-            if not why and len(ifs) == 1:
+            if len(ifs) == 1:
                 thn = [n for n in F.walk(ifs[0].get("then")) if n.get("k") == "compound_assign"]
                 els = [n for n in F.walk(ifs[0].get("else")) if n.get("k") == "compound_assign"]
-                if not thn or thn[0].get("op") != "|=" or "get_unsafe(index)" not in T.show(T.norm(u, thn[0]["l"])):
-                    why = "setting a bit is not `word[index] |= mask`"
-                elif not els or els[0].get("op") != "&=" or "~" not in T.show(T.norm(u, els[0]["r"])) or "get_unsafe(index)" not in T.show(T.norm(u, els[0]["l"])):
-                    why = "clearing a bit is not `word[index] &= ~mask`"
-                elif T.show(T.norm(u, ifs[0]["cond"])) != "_value":
+
+                def word_ok(n):
+                    return "get_unsafe(array_offset(pos_))" in shown(n["l"])
+
+                def mask_ok(n):
+                    return "bit_mask(bit_offset(pos_))" in shown(n["r"])
+                if len(thn) != 1 or thn[0].get("op") != "|=" or not word_ok(thn[0]) or not mask_ok(thn[0]) or "~" in shown(thn[0]["r"]):
+                    why = "setting a bit is not `word[array_offset(pos_)] |= bit_mask(bit_offset(pos_))`: %s" % ([shown(n["l"]) + " " + n.get("op", "") + " " + shown(n["r"]) for n in thn])
+                elif len(els) != 1 or els[0].get("op") != "&=" or not word_ok(els[0]) or not mask_ok(els[0]) or "~" not in shown(els[0]["r"]):
+                    why = "clearing a bit is not `word[array_offset(pos_)] &= ~bit_mask(bit_offset(pos_))`: %s" % ([shown(n["l"]) + " " + n.get("op", "") + " " + shown(n["r"]) for n in els])
+                elif shown(ifs[0]["cond"]) != fn["params"][0]["name"]:
                     why = "the branch is not on the assigned value"
-            elif not why:
+            else:
                 why = "expected exactly one branch on the assigned value"
             (rep.fail if why else rep.ok)("ADDR", key + "(bool)", F.primary_site(fn), F.describe(fn)[:160], **({"why": why} if why else {"how": "index/bit/mask from pos_; |= mask / &= ~mask"}))
         if fn.get("kind") == "conversion":
